@@ -247,7 +247,7 @@ PROPS = {
         "not_covered": ["returned witness == AND/XOR of truncated inputs (lemma)"],
     },
     "C11": {
-        "v_units": ["truncate.py"],
+        "v_units": ["truncate.py", "truncate_lemmas.py"],
         "r": [("gadgets", lambda n: n.startswith("bits.component_decomposition") or n.startswith("truncate.") or n.startswith("range.")),
               ("composer_leaves", lambda n: "internal" in n)],
         "claim": "layout of truncation for EVERY width N <= 254: component_truncate::<N> emits exactly trunc_rows(N) = range check of the "
@@ -258,14 +258,17 @@ PROPS = {
                  "== little-endian bit sum mod r (loop invariant); component_decomposition::<N> for the INSTANCES N in {1,2,8,252,256} "
                  "(composer-operation trace: N boolean bit witnesses, running sum with coefficient 2^i, closing equality, bits returned "
                  "little-endian; `assert!(0 < N && N <= 256)` holds)."
-                 "Second opinion by R: component_truncate, bind_truncation_split, assert_canonical_truncation per width (all widths in the thorough tier) and the range gadget instances.",
-        "technique": "contract-based deductive verification: Verus on the real functions annotated in place (overlay)",
+                 "Second opinion by R: component_truncate, bind_truncation_split, assert_canonical_truncation per width (all widths in the thorough tier) and the range gadget instances. "
+                 "SEMANTIC LEMMAS (Verus, specs/verus/truncate_lemmas.rs), for every 1 <= N <= 254 over canonical wire values: soundness - rows satisfied ==> low == x mod 2^N and "
+                 "high == x div 2^N whatever the prover puts on the internal wires (high <= r_high from the diff range check, is_top == [high == r_high] by the is-zero gadget and R prime, "
+                 "low <= r_low from the guard range check, hence 2^N high + low <= r - 1 as integers); completeness - the honest assignment satisfies the rows for every canonical x.",
+        "technique": "contract-based deductive verification: Verus on the real functions annotated in place (overlay) + Verus lemmas over the emitted rows",
         "level_note": "component_decomposition is decided per instance N (listed), not for all N: the fold over a const-generic array is unrolled "
-                      "by the trace checker. NOT covered: honest witness values of truncation, the canonical-split lemma.",
+                      "by the trace checker. The lemmas take the range-check rows through the C09 interval lemma and the arithmetic rows through the C08 row lemmas (stated as relations on canonical values). NOT covered: the decomposition semantic lemma.",
         "design_ref": "DESIGN.md §4 C11",
         "assumptions": A_VERUS + ["CANON model", "BlsScalar::{to_bits, pow_of_2, invert} contracts", "cut_le_bits"],
         "trusted": T_VERUS,
-        "not_covered": ["component_decomposition for N outside {1,2,8,252,256}", "semantic lemma for truncation / decomposition"],
+        "not_covered": ["component_decomposition for N outside {1,2,8,252,256}", "semantic lemma for decomposition"],
     },
     "C12": {
         "v_units": ["composer_bits_select.py"],      # component_select / select_one / select_zero / boolean: callees of component_select_point and select_identity
@@ -303,19 +306,21 @@ PROPS = {
         "not_covered": ["the subgroup iff (A4-A6)"],
     },
     "C14": {
+        "v_units": ["fixed_base_lemmas.py"],
         "r": [("widgets", lambda n: n.startswith("fixed_base.")), ("gadgets", lambda n: n.startswith("fixed_base.")), ("composer_leaves", lambda n: "internal" in n)],
         "claim": "(a) fixed-base widget: extract_bit, check_bit_consistency, prover quotient term, linearisation and verifier commitment "
                  "term equal the protocol's fixed-base row identity (bit in {-1,0,1}; xy_alpha = bit*xy_beta; Edwards addition of the "
                  "selected table point to the accumulator); (b) gadget: assert_canonical_jubjub_scalar = two 252-bit range checks around "
                  "(r_j - 1) - s; append_fixed_base_signed_digits emits, for all 256 rounds, 4 witnesses and one selected row with "
                  "q_L = x_beta, q_R = y_beta, q_C = x_beta*y_beta, first-row anchors to (0,1,0), carrier row, leading accumulator "
-                 "(round 3) pinned to 0, closing equality with the scalar witness; component_mul_generator guard order and error mapping.",
-        "technique": "contract-based deductive verification: ring/trace contract checker (exact polynomial normal form)",
+                 "(round 3) pinned to 0, closing equality with the scalar witness; component_mul_generator guard order and error mapping. "
+                 "(c) LEMMA (Verus): the rows of assert_canonical_jubjub_scalar (s < 2^252, dist = (r_j - 1) - s mod r, dist < 2^252) are satisfiable exactly for s < r_j.",
+        "technique": "contract-based deductive verification: ring/trace contract checker (exact polynomial normal form) + Verus lemma (canonical scalar)",
         "level_note": "Host-side table / digit computations inside append_fixed_base_signed_digits are havocked (trace-only mode). NOT covered: "
-                      "the canonical-scalar lemma, the integer-equality lemma, [s]G (group law).",
+                      "the integer-equality lemma for the signed digits, [s]G (group law).",
         "design_ref": "DESIGN.md §4 C14",
-        "assumptions": A_RING + ["EDWARDS_D treated as an opaque constant symbol"], "trusted": T_RING,
-        "not_covered": ["canonicity / integer-equality lemmas", "group law", "Err(UnsupportedWNAF2k) exit (havocked statement)"],
+        "assumptions": A_RING + A_VERUS + ["EDWARDS_D treated as an opaque constant symbol", "CANON model; range checks by the C09 interval lemma"], "trusted": T_RING + T_VERUS,
+        "not_covered": ["integer-equality lemma for the signed-digit recomposition", "group law", "Err(UnsupportedWNAF2k) exit (havocked statement)"],
     },
     "C17": {
         "v_units": ["decoders.py", "compress.py"],
